@@ -345,3 +345,245 @@ Example path_substring_refuted_pinned :
   tag_designates ex_db (lit "foo") (lit "t") (lit "Linux64")
   = Some (mkFound (lit "s2") (lit "foo") (lit "1.0") (lit "Linux64")).
 Proof. repeat split; vm_compute; reflexivity. Qed.
+
+(* ================================================================== the comparator of C10 in the resolver *)
+
+(* From here on vcmp / vmatch are no longer parameters: vcmp_real is hooks.version_cmp in sorting mode and
+   vmatch_real is Eups.version_match, both as modelled and proved about in C10 (Model/VersionCompare.v,
+   Props/C10.v).  resolve_real / walk_real (Model/ResolveReal.v) are resolve_request / find_from_vro with
+   them, guarded by real_domain (no comparison the request can cause raises).
+   conv_names l: every name of l is conventional (C10: conv).  real_names_ok l: moreover no two names of l
+   spell the same key (1.0 / 1_0 / 1.00 / 01.0 are one key).  *)
+From Eupsv Require Import Model.VersionCompare Model.VersionKey Model.ResolveReal Proofs.ResolveReal.
+
+(* ------------------------------------------------------------------ the hypothesis total_order_on, discharged *)
+
+(* on conventional names the real comparator is reflexive, flips with its arguments, its not-greater is
+   transitive, and it answers Eq exactly for names with the same key: a total PREorder *)
+Theorem real_comparator_total_preorder l :
+  conv_names l = true ->
+  total_preorder_on vcmp_real l /\
+  forall x y, In x l -> In y l ->
+    vcmp_real x y = key_compare (key x) (key y) /\ (vcmp_real x y = Eq <-> key x = key y).
+Proof.
+  intro C. split; [now apply real_preorder|]. intros x y Hx Hy. rewrite conv_names_forall in C.
+  split; [apply vcmp_real_key|apply vcmp_real_eq_key]; auto.
+Qed.
+Print Assumptions real_comparator_total_preorder.
+
+(* it is the total order that walk_is_designation and its corollaries ask for exactly when no two of the
+   names spell the same key *)
+Theorem real_comparator_total_order l :
+  conv_names l = true -> (total_order_on vcmp_real l <-> real_names_ok l = true).
+Proof. intro C. split; [now apply real_total_order_inv|apply real_total_order]. Qed.
+Print Assumptions real_comparator_total_order.
+
+(* the matcher: one relational term is the relation on keys (and no match across letter prefixes); a list of
+   alternatives is the disjunction *)
+Theorem real_matcher_relop v op w :
+  conv v = true -> conv w = true ->
+  vmatch_real v (relop_text op ++ " "%char :: w) =
+  str_eqb (prefix_of w) (prefix_of v) && rel op (key_compare (key v) (key w)).
+Proof. apply vmatch_real_relop. Qed.
+Print Assumptions real_matcher_relop.
+
+Theorem real_matcher_alternatives v a l :
+  conv v = true -> Forall (Proofs.VersionCompareMatch.alt_conv v) (a :: l) ->
+  vmatch_real v (print_expr (a :: l)) = existsb (alt_holds v) (a :: l).
+Proof. apply vmatch_real_alternatives. Qed.
+Print Assumptions real_matcher_alternatives.
+
+(* ------------------------------------------------------------------ the C03 theorems for the real comparator *)
+
+Theorem walk_is_designation_real c db f depth vro rq :
+  wf_db db = true -> real_names_ok (names_of db (rq_name rq)) = true ->
+  option_map fst (find_from_vro vcmp_real vmatch_real c db None f depth vro rq) =
+  designates_in vcmp_real vmatch_real c db (rq_name rq) (classify rq) f vro.
+Proof. intros WF OK. apply walk_is_designation; [exact WF|now apply real_total_order]. Qed.
+Print Assumptions walk_is_designation_real.
+
+(* the whole resolution, with the guard: inside the domain it never raises and returns the designated product *)
+Theorem resolve_is_designation_real c db keep flavors depth vro rq :
+  wf_db db = true -> real_names_ok (names_of db (rq_name rq)) = true -> real_domain db rq = true ->
+  exists r, resolve_real c db keep None flavors depth vro rq = Ok r /\
+            option_map fst r = designates_real c db flavors depth vro rq.
+Proof.
+  intros WF OK DOM. rewrite (resolve_real_in_domain _ _ _ _ _ _ _ _ DOM).
+  apply resolve_is_designation; [exact WF|now apply real_total_order].
+Qed.
+Print Assumptions resolve_is_designation_real.
+
+Theorem native_flavor_preferred_real c db keep f fs depth vro rq :
+  wf_db db = true -> real_names_ok (names_of db (rq_name rq)) = true ->
+  (forall p, designates_top vcmp_real vmatch_real c db (rq_name rq) (classify rq) f depth vro = Some p ->
+     fd_flavor p = f /\
+     exists r, resolve_request vcmp_real vmatch_real c db keep None (f :: fs) depth vro rq = Ok (Some (p, r))) /\
+  (designates_top vcmp_real vmatch_real c db (rq_name rq) (classify rq) f depth vro = None ->
+     designates_real c db (f :: fs) depth vro rq = designates_real c db fs depth vro rq).
+Proof. intros WF OK. apply native_flavor_preferred; [exact WF|now apply real_total_order]. Qed.
+Print Assumptions native_flavor_preferred_real.
+
+(* the expression entry, read in the key order of C10: the product chosen for  op w  is declared, its version
+   has the letter prefix of w and stands in relation op to w, and no declared version that does so is higher.
+   Needs conventional names only - names that spell the same key are allowed (which of them: see below). *)
+Theorem expr_highest_real db n op w f p :
+  conv_names (names_of db n) = true -> conv w = true ->
+  select_latest vcmp_real (find_by_expr vmatch_real db n (relop_text op ++ " "%char :: w) f) = Some p ->
+  In p (candidates db n f) /\
+  prefix_of (fd_version p) = prefix_of w /\ rel op (key_compare (key (fd_version p)) (key w)) = true /\
+  (forall q, In q (candidates db n f) -> prefix_of (fd_version q) = prefix_of w ->
+             rel op (key_compare (key (fd_version q)) (key w)) = true ->
+             key_compare (key (fd_version q)) (key (fd_version p)) <> Gt).
+Proof. apply expr_highest_real_lemma. Qed.
+Print Assumptions expr_highest_real.
+
+(* the tag latest: a declaration whose key no declaration exceeds, the first one carrying that name *)
+Theorem latest_highest_real db n f p :
+  conv_names (names_of db n) = true ->
+  find_latest vcmp_real db n f = Some p ->
+  In p (candidates db n f) /\
+  (forall q, In q (candidates db n f) -> key_compare (key (fd_version q)) (key (fd_version p)) <> Gt) /\
+  find (fun q => str_eqb (fd_version q) (fd_version p)) (candidates db n f) = Some p.
+Proof. apply latest_highest_real_lemma. Qed.
+Print Assumptions latest_highest_real.
+
+(* ------------------------------------------------------------------ names that compare equal *)
+
+(* What the look-ups do when distinct names compare equal, for ANY comparator that is a total preorder on the
+   declared names (so for the real one on conventional names).  Antisymmetry is not used.
+     latest      the first stack of the path holding a greatest name answers, with the LAST greatest name of
+                 its listing (latest_tie);
+     expression  the matching names along the path, each at its first appearance; the LAST greatest of that
+                 list, at its first declaration (expr_tie) - a later stack wins a tie between spellings.
+   Observed on the real code in both look-up modes (harness/c03.py, family versions). *)
+Theorem latest_tie_rule vcmp db n f :
+  total_preorder_on vcmp (names_of db n) -> find_latest vcmp db n f = latest_tie vcmp db n f.
+Proof. apply latest_tie_spec. Qed.
+Print Assumptions latest_tie_rule.
+
+Theorem expr_tie_rule vcmp vmatch db n x f :
+  total_preorder_on vcmp (names_of db n) ->
+  select_latest vcmp (find_by_expr vmatch db n x f) = expr_tie vcmp vmatch db n x f.
+Proof. apply expr_tie_spec. Qed.
+Print Assumptions expr_tie_rule.
+
+Theorem tie_rules_real db n x f :
+  conv_names (names_of db n) = true ->
+  find_latest vcmp_real db n f = latest_tie vcmp_real db n f /\
+  select_latest vcmp_real (find_by_expr vmatch_real db n x f) = expr_tie vcmp_real vmatch_real db n x f.
+Proof. intro C. split; [apply latest_tie_spec|apply expr_tie_spec]; now apply real_preorder. Qed.
+Print Assumptions tie_rules_real.
+
+(* the statements of expr_highest and latest_highest above survive without antisymmetry *)
+Theorem expr_highest_preorder vcmp vmatch db n x f p :
+  total_preorder_on vcmp (names_of db n) ->
+  select_latest vcmp (find_by_expr vmatch db n x f) = Some p ->
+  In p (candidates db n f) /\ vmatch (fd_version p) x = true /\
+  (forall q, In q (candidates db n f) -> vmatch (fd_version q) x = true ->
+             vcmp (fd_version q) (fd_version p) <> Gt) /\
+  find (fun q => str_eqb (fd_version q) (fd_version p))
+       (filter (fun q => vmatch (fd_version q) x) (candidates db n f)) = Some p.
+Proof. apply expr_highest_pre. Qed.
+Print Assumptions expr_highest_preorder.
+
+Theorem latest_highest_preorder vcmp db n f p :
+  total_preorder_on vcmp (names_of db n) ->
+  find_latest vcmp db n f = Some p ->
+  In p (candidates db n f) /\
+  (forall q, In q (candidates db n f) -> vcmp (fd_version q) (fd_version p) <> Gt) /\
+  find (fun q => str_eqb (fd_version q) (fd_version p)) (candidates db n f) = Some p.
+Proof. apply latest_highest_pre. Qed.
+Print Assumptions latest_highest_preorder.
+
+(* ------------------------------------------------------------------ examples with the real comparator *)
+
+(* two stacks; foo in versions 1.0 1.0.1 1.0+1 1.0-rc1 1.9 (s1) and 1.10 1.10-rc1 1.9 v2.0 (s2) *)
+Definition rv_s1 : stackv :=
+  mkStack (lit "s1")
+    [(lit "foo", lit "1.0", lit "Linux64"); (lit "foo", lit "1.0+1", lit "Linux64");
+     (lit "foo", lit "1.0-rc1", lit "Linux64"); (lit "foo", lit "1.0.1", lit "Linux64");
+     (lit "foo", lit "1.9", lit "Linux64")]
+    [(lit "foo", lit "Linux64", lit "current", lit "1.0+1")].
+Definition rv_s2 : stackv :=
+  mkStack (lit "s2")
+    [(lit "foo", lit "1.10", lit "Linux64"); (lit "foo", lit "1.10-rc1", lit "Linux64");
+     (lit "foo", lit "1.9", lit "Linux64"); (lit "foo", lit "v2.0", lit "Linux64")]
+    [].
+Definition rv_db : dbv := [rv_s1; rv_s2].
+Definition rv_walk (x : string) : option (found * reason) :=
+  find_from_vro vcmp_real vmatch_real ex_cfg rv_db None (lit "Linux64") 1 (ex_vro [] []) (ex_rq (Some (lit x)) None).
+Definition rv_found (s v : string) (x : string) : option (found * reason) :=
+  Some (mkFound (lit s) (lit "foo") (lit v) (lit "Linux64"), (EVersionExpr, Some (lit x))).
+Arguments rv_walk x%string.
+Arguments rv_found (s v x)%string.
+
+Example rv_hypotheses :
+  wf_db rv_db = true /\ real_names_ok (names_of rv_db (lit "foo")) = true /\
+  real_domain rv_db (ex_rq (Some (lit ">= 1.0.1 || == 1.0-rc1")) None) = true /\
+  total_order_on vcmp_real (names_of rv_db (lit "foo")).
+Proof. split; [reflexivity|]. split; [vm_compute; reflexivity|]. split; [vm_compute; reflexivity|].
+       apply real_total_order. vm_compute. reflexivity. Qed.
+
+(* 1.10 is above 1.9 (components are numbers), 1.0.1 above 1.0+1 above 1.0 above 1.0-rc1; v2.0 has another
+   letter prefix and never satisfies an expression over plain numbers; the dotted-numeric comparator of
+   Model/Resolve.v reads 1.0+1 as 1.01 and gets the second one wrong *)
+Example rv_expressions :
+  rv_walk ">= 1.0.1" = rv_found "s2" "1.10" ">= 1.0.1" /\
+  rv_walk "< 1.10" = rv_found "s2" "1.10-rc1" "< 1.10" /\
+  rv_walk "< 1.0.1" = rv_found "s1" "1.0+1" "< 1.0.1" /\
+  rv_walk "<= 1.0" = rv_found "s1" "1.0" "<= 1.0" /\
+  rv_walk "< 1.0" = rv_found "s1" "1.0-rc1" "< 1.0" /\
+  rv_walk "== 1.9" = rv_found "s1" "1.9" "== 1.9" /\
+  rv_walk "> 1.10" = None /\
+  rv_walk ">= v1.0" = rv_found "s2" "v2.0" ">= v1.0" /\
+  rv_walk "< 1.0-rc1 || == 1.0+1" = rv_found "s1" "1.0+1" "< 1.0-rc1 || == 1.0+1" /\
+  option_map fst (find_from_vro vcmp_simple vmatch_simple ex_cfg rv_db None (lit "Linux64") 1 (ex_vro [] [])
+                                (ex_rq (Some (lit "< 1.0.1")) None))
+  = Some (mkFound (lit "s1") (lit "foo") (lit "1.0-rc1") (lit "Linux64")).
+Proof. vm_compute. repeat split. Qed.
+
+(* the tag latest over both stacks, and the designation rule evaluated on the same requests *)
+Example rv_latest_and_spec :
+  find_latest vcmp_real rv_db (lit "foo") (lit "Linux64")
+  = Some (mkFound (lit "s2") (lit "foo") (lit "1.10") (lit "Linux64")) /\
+  designates_in vcmp_real vmatch_real ex_cfg rv_db (lit "foo") (classify (ex_rq (Some (lit "< 1.10")) None))
+                (lit "Linux64") (ex_vro [] [])
+  = Some (mkFound (lit "s2") (lit "foo") (lit "1.10-rc1") (lit "Linux64")) /\
+  resolve_real ex_cfg rv_db false None ex_flavors 1 (ex_vro [] []) (ex_rq (Some (lit "1.0")) (Some (lit ">= 1.0+1")))
+  = Ok (Some (mkFound (lit "s2") (lit "foo") (lit "1.10") (lit "Linux64"), Some (EVersionExpr, Some (lit ">= 1.0+1")))) /\
+  resolve_real ex_cfg rv_db false None ex_flavors 1 (ex_vro [] []) (ex_rq (Some (lit ">=")) None) = Err Undefined.
+Proof. vm_compute. repeat split. Qed.
+
+(* spellings of one key.  s1 lists 1.0 before 1_0, s2 declares 1.00.  The tag latest: the earlier stack wins,
+   inside it the later listed 1_0.  An expression: the later stack's 1.00 wins - even for == 1.0, which s1
+   declares under that very name.  The designation rule of ResolveSpec (of equally high ones the earliest) names
+   1.0 in both cases: walk_is_designation is false of the real comparator without real_names_ok. *)
+Definition tie_db : dbv :=
+  [mkStack (lit "s1") [(lit "foo", lit "0.9", lit "Linux64"); (lit "foo", lit "1.0", lit "Linux64");
+                       (lit "foo", lit "1_0", lit "Linux64")] [];
+   mkStack (lit "s2") [(lit "foo", lit "0.5", lit "Linux64"); (lit "foo", lit "1.00", lit "Linux64")] []].
+
+Example walk_is_designation_refuted_ties :
+  let rq := ex_rq (Some (lit "== 1.0")) None in
+  wf_db tie_db = true /\ conv_names (names_of tie_db (lit "foo")) = true /\
+  real_names_ok (names_of tie_db (lit "foo")) = false /\
+  option_map fst (find_from_vro vcmp_real vmatch_real ex_cfg tie_db None (lit "Linux64") 1 (ex_vro [] []) rq)
+  = Some (mkFound (lit "s2") (lit "foo") (lit "1.00") (lit "Linux64")) /\
+  designates_in vcmp_real vmatch_real ex_cfg tie_db (lit "foo") (classify rq) (lit "Linux64") (ex_vro [] [])
+  = Some (mkFound (lit "s1") (lit "foo") (lit "1.0") (lit "Linux64")) /\
+  find_latest vcmp_real tie_db (lit "foo") (lit "Linux64")
+  = Some (mkFound (lit "s1") (lit "foo") (lit "1_0") (lit "Linux64")) /\
+  highest vcmp_real (candidates tie_db (lit "foo") (lit "Linux64"))
+  = Some (mkFound (lit "s1") (lit "foo") (lit "1.0") (lit "Linux64")) /\
+  latest_tie vcmp_real tie_db (lit "foo") (lit "Linux64")
+  = Some (mkFound (lit "s1") (lit "foo") (lit "1_0") (lit "Linux64")) /\
+  expr_tie vcmp_real vmatch_real tie_db (lit "foo") (lit "== 1.0") (lit "Linux64")
+  = Some (mkFound (lit "s2") (lit "foo") (lit "1.00") (lit "Linux64")).
+Proof. vm_compute. repeat split. Qed.
+
+(* outside the conventional names the sorting comparison is not transitive (C10: nonconventional_cycle) and the
+   model's reading of python's sort - last of the greatest - has no meaning: 2 < 10 < 1a < 2 *)
+Example real_comparator_cycle_outside_conv :
+  conv_names [lit "2"; lit "10"; lit "1a"] = false /\ forallb accepts [lit "2"; lit "10"; lit "1a"] = true /\
+  vcmp_real (lit "2") (lit "10") = Lt /\ vcmp_real (lit "10") (lit "1a") = Lt /\ vcmp_real (lit "1a") (lit "2") = Lt.
+Proof. vm_compute. repeat split. Qed.
